@@ -450,7 +450,10 @@ def query_sets(n, seed_tag, size=(3, 5)):
     return refs, pool, sets
 
 
-def set_world(refs, pool, idxs, nrefs=3, ids=QIDS):
+def set_world(refs, pool, idxs, nrefs=3, ids=QIDS, short_ref=False):
     queries = [worlds.as_map(ids[j], pool[i][1], trailing=(0.0, 2500.0)[j % 2], offset=(0.0, 777.7, 20.0)[j % 3]) for j, i in enumerate(idxs)]
     order = [refs[1], refs[0], refs[2]][:nrefs] if nrefs > 1 else [refs[0]]
-    return dict(refs=order, queries=queries, desc=[pool[i][0] for i in idxs])
+    if short_ref:
+        # a reference shorter than most queries, with the LOWEST id (it is read first): candidates must still come from all references
+        order = order + [worlds.catalogue_ref(9, 'menu', 10, ref_id=1)]
+    return dict(refs=order, queries=queries, desc=[pool[i][0] for i in idxs] + (['+short reference id 1'] if short_ref else []))
